@@ -20,7 +20,8 @@ func init() {
 func H_TD_C13_parallel() {
 	gldap.VSummarise("encodeInteger")
 	d := &Directory{t: vT{}, logger: hclog.NewNullLogger(), userDN: DefaultUserDN, groupDN: DefaultGroupDN,
-		server: &tls.Config{MinVersion: tls.VersionTLS12}}
+		server: &tls.Config{MinVersion: tls.VersionTLS12, ClientAuth: tls.RequireAndVerifyClientCert}}
+	listenerCfg := d.server // the configuration object the listener was created with (Start passes d.server to Run)
 	d.users = []*gldap.Entry{{DN: vUserPool[0], Attributes: []*gldap.EntryAttribute{gldap.NewEntryAttribute("password", []string{"pw"})}}}
 	a := gldap.VStartTLSExchange("a", 1, true)
 	go d.handleStartTLS(vT{})(a.W, a.Req)
@@ -44,6 +45,9 @@ func H_TD_C13_parallel() {
 	if other == 1 {
 		gldap.VAssertE(b.Upgraded(), "another session completes its own upgrade meanwhile")
 	}
+	// serving StartTLS does not weaken the configuration other connections are accepted with
+	gldap.VAssertE(listenerCfg.ClientAuth == tls.RequireAndVerifyClientCert && d.server.ClientAuth == tls.RequireAndVerifyClientCert,
+		"the directory's TLS configuration still requires and verifies client certificates after StartTLS requests were served")
 	a.Close()
 	b.Close()
 	gldap.VQuiesce()
